@@ -161,6 +161,9 @@ def gen_case(seed):
         for w in ('w0', 'w1'):
             pool[('B', 'sub', w)] = _leaf_attrs(r, swarm)
             pool[('c0', 'S', 'sub', w)] = _leaf_attrs(r, swarm)
+        for z in ('z0', 'z1'):
+            pool[('B', 'sub', 'deep', z)] = _leaf_attrs(r, swarm)
+            pool[('c0', 'S', 'sub', 'deep', z)] = _leaf_attrs(r, swarm)
     gsub = {}
     for g in GLOB_STORES:
         gsub[g] = {v: _leaf_attrs(r, swarm) for v in r.sample(['a', 'b', 'c'], r.rint(1, 3))}
@@ -256,6 +259,10 @@ def gen_case(seed):
                 sch['sub'] = {w: _leaf_schema(pool[st + ('sub', w)]) for w in sub}
                 decl = [((port, v), st + (v,)) for v in pick] + \
                        [((port, 'sub', w), st + ('sub', w)) for w in sub]
+                if r.chance(60):
+                    deep = [z for z in ('z0', 'z1') if r.chance(70)] or ['z0']
+                    sch['sub']['deep'] = {z: _leaf_schema(pool[st + ('sub', 'deep', z)]) for z in deep}
+                    decl += [((port, 'sub', 'deep', z), st + ('sub', 'deep', z)) for z in deep]
                 schema[port] = sch
                 topo[port] = rel(Q, st, r)
             elif kind == 'leafport':
@@ -310,8 +317,13 @@ def gen_case(seed):
                     used.add(tgt)
                 if r.chance(70):
                     sp = ['@%d' % r.below(3) if s == '@' else s for s in spath]
-                    writes.append({'path': sp, 'vals': _vals_for(r, attrs, name, swarm),
-                                   'mask': [1 if r.chance(70) else 0 for _ in range(r.rint(1, 4))]})
+                    w_ = {'path': sp, 'vals': _vals_for(r, attrs, name, swarm),
+                          'mask': [1 if r.chance(70) else 0 for _ in range(r.rint(1, 4))]}
+                    if attrs['kind'] in ('acc_list', 'acc_nd') and '@' not in tgt and r.chance(40):
+                        # "add what I saw": the update is the viewed object itself
+                        w_['echo'] = list(spath)
+                        w_['mask'] = [1, 0, 0, 0, 0, 0, 0, 0, 0, 0, 0, 0]    # the value doubles each time
+                    writes.append(w_)
                 if swarm['composite_init'] and '@' not in tgt and r.chance(20) \
                         and attrs['kind'] in ('acc_int', 'set') and tgt not in init_given:
                     init_given.add(tgt)
